@@ -211,9 +211,8 @@ pub fn book_spec(max: usize) -> BoxedStrategy<BookSpec> {
 
 fn len_small_or_long(small_max: usize) -> BoxedStrategy<usize> {
     prop_oneof![
-        12 => 0..=small_max,
-        1 => 30usize..=45,
-        1 => 72usize..=78,
+        10 => 0..=small_max,
+        1 => gen::size_class(10).prop_map(|n| n as usize),
     ]
     .boxed()
 }
@@ -496,7 +495,18 @@ pub fn check_json(v: &Val) -> Result<(), String> {
         Val::Order { spec, id, price } => {
             let x = spec.build(id.build(), *price);
             let (s, y) = json_rt(&x)?;
-            same("OrderType", &s, &x, &y)
+            same("OrderType", &s, &x, &y)?;
+            // the same order carrying caller-defined extra fields
+            #[derive(Clone, Debug, PartialEq, Serialize, Deserialize)]
+            struct Extra {
+                client: Option<u64>,
+                note: String,
+                flags: Vec<u8>,
+            }
+            let e = Extra { client: if spec.buy { Some(spec.ts) } else { None }, note: format!("n{}:\"é;=[", spec.peg), flags: vec![spec.peg, 255] };
+            let xe = x.map_extra_fields(|_| e.clone());
+            let (se, ye) = json_rt(&xe)?;
+            same("OrderType<Extra>", &se, &xe, &ye)
         }
         Val::Update(u) => {
             let x = u.build();
